@@ -164,6 +164,9 @@ pub fn cold(prop: &str, index: Option<usize>, st: &mut Stats) -> Option<usize> {
             for v in [V::Date(1970, 1, 1), V::Time(0, 0, 0, 0), V::Ts(1970, 1, 1, 0, 0, 0, 0), V::Ora(1970, 1, 1, 0, 0, 0), V::YM(false, 0, 0), V::DT(false, 0, 0, 0, 0, 0), V::Date(1969, 12, 31), V::Ts(1969, 12, 31, 23, 59, 59, 999_999), V::Date(1, 1, 1), V::Ts(9999, 12, 31, 23, 59, 59, 999_999)] {
                 l.push(c15::S::Rt(v));
             }
+            for v in [V::Ts(2021, 3, 4, 5, 6, 7, 8), V::Ora(2021, 3, 4, 5, 6, 7), V::Date(2021, 3, 4), V::Time(5, 6, 7, 8), V::YM(true, 12, 5), V::DT(false, 3, 5, 6, 7, 8)] {
+                l.insert(0, c15::S::DecCanon(v));
+            }
             for ty in ALL_TY {
                 l.push(c15::S::DecBin(ty, 0));
                 l.push(c15::S::DecBin(ty, 1));
